@@ -106,12 +106,14 @@ type recorder struct {
 	phase    string
 	images   []*image
 	// model-level view of the durable state
-	walRecs map[string][]int // wal file (relative) -> batch ids appended, in order
-	genOf   map[string]int   // tssp file (relative, final name) -> flush generation
-	flushNo int
-	genLo   map[int]int // generation -> first batch id it covers
-	genHi   map[int]int // generation -> one past the last batch id it covers
-	nParts  int
+	walRecs  map[string][]int // wal file (relative) -> batch ids appended, in order
+	genOf    map[string]int   // tssp file (relative, final name) -> flush generation
+	flushNo  int
+	genFiles map[int][]string // generation -> final names of the data files it writes
+	genLo    map[int]int      // generation -> first batch id it covers
+	genHi    map[int]int      // generation -> one past the last batch id it covers
+	nParts   int
+	histOps  int // write / flush op lines issued so far
 	// pausing a flush
 	pauseAt, pauseCnt int
 	inWrite           bool
@@ -175,11 +177,13 @@ func relocateTxn(imgRoot, origRoot string) {
 func (rc *recorder) durable(dir string, tornID int) (string, string) {
 	var vis []string
 	visGen := map[int]bool{}
+	visFile := map[string]bool{}
 	filepath.Walk(filepath.Join(dir, "data"), func(p string, info os.FileInfo, err error) error {
 		if err != nil || info.IsDir() || !strings.HasSuffix(p, ".tssp") {
 			return nil
 		}
 		rel, _ := filepath.Rel(dir, p)
+		visFile[rel] = true
 		g, ok := rc.genOf[rel]
 		kind := "o"
 		if strings.Contains(rel, "out-of-order") {
@@ -242,29 +246,91 @@ func (rc *recorder) durable(dir string, tornID int) (string, string) {
 	if tornID >= 0 {
 		t = fmt.Sprint(tornID)
 	}
-	// classification of the durable state (see DESIGN.md C01): records of an already
-	// visible generation that survive only in part, or survive completely next to newer records
-	// in more than one partition that does not start at partition 0.
-	class := ""
-	_ = visGen
-	for g := 1; g <= rc.flushNo; g++ {
-		lo, hi := rc.genLo[g], rc.genHi[g]
-		rem, newer := 0, 0
-		for _, id := range allIDs {
-			if id >= lo && id < hi {
-				rem++
+	// classification of the durable state: the same exactness condition as the Lean model's
+	// `safeDurable` (OG/C01/Model.lean), evaluated on what the harness observed.
+	type rec struct{ part, id int }
+	var recs []rec
+	{
+		// allIDs was collected partition by partition; rebuild (partition, id) pairs
+		for _, ps := range parts {
+			var p int
+			var rest string
+			if i := strings.IndexByte(ps, ':'); i >= 0 {
+				fmt.Sscanf(ps[:i], "%d", &p)
+				rest = ps[i+1:]
 			}
-			if id >= hi {
-				newer++
+			if rest == "" {
+				continue
 			}
-		}
-		if rem > 0 && rem < hi-lo {
-			class = "crash_inside_wal_removal"
-		} else if rem == hi-lo && rem > 0 && newer > 0 && rc.nParts > 1 && (hi-lo)%rc.nParts != 0 {
-			class = "flush_window_replay_order"
+			for _, x := range strings.Split(rest, ".") {
+				var id int
+				fmt.Sscanf(x, "%d", &id)
+				recs = append(recs, rec{p, id})
+			}
 		}
 	}
-	return fmt.Sprintf("crash vis=%s wal=%s torn=%s", strings.Join(vis, ","), strings.Join(parts, "|"), t), class
+	sort.SliceStable(recs, func(a, b int) bool { return recs[a].id < recs[b].id })
+	q := make([][]int, rc.nParts)
+	for _, r := range recs {
+		if r.part < rc.nParts {
+			q[r.part] = append(q[r.part], r.id)
+		}
+	}
+	var order []int
+	for len(order) < len(recs) {
+		progressed := false
+		for p := 0; p < rc.nParts; p++ {
+			if len(q[p]) > 0 {
+				order = append(order, q[p][0])
+				q[p] = q[p][1:]
+				progressed = true
+			}
+		}
+		if !progressed {
+			break
+		}
+	}
+	full := func(g int) bool {
+		for _, f := range rc.genFiles[g] {
+			if !visFile[f] {
+				return false
+			}
+		}
+		return true
+	}
+	class := ""
+	if len(order) == 0 {
+		for g := 1; g <= rc.flushNo; g++ {
+			if !full(g) {
+				class = "crash_inside_wal_removal"
+			}
+		}
+	} else {
+		w, m := order[0], order[0]+len(order)
+		consecutive := true
+		for i, id := range order {
+			if id != w+i {
+				consecutive = false
+			}
+		}
+		if !consecutive {
+			class = "flush_window_replay_order"
+		} else {
+			flushedTo := 0
+			if rc.flushNo > 0 {
+				flushedTo = rc.genHi[rc.flushNo]
+			}
+			if w > flushedTo {
+				class = "crash_inside_wal_removal"
+			}
+			for g := 1; g <= rc.flushNo; g++ {
+				if rc.genHi[g] > m || (rc.genLo[g] < w && !full(g)) {
+					class = "crash_inside_wal_removal"
+				}
+			}
+		}
+	}
+	return fmt.Sprintf("crash at=%d vis=%s wal=%s torn=%s", rc.histOps, strings.Join(vis, ","), strings.Join(parts, "|"), t), class
 }
 
 // Before lets the history pause a flush right before one of its data-file / WAL-removal
@@ -306,6 +372,11 @@ func (rc *recorder) After(op, p, p2 string, n int64, err error) {
 	// bookkeeping for the model-level view
 	if isWal && op == "write" && rc.inflight >= 0 {
 		rc.walRecs[rel] = append(rc.walRecs[rel], rc.inflight)
+	}
+	if isData && (op == "openfile" || op == "create") && strings.HasSuffix(rel, ".tssp.init") {
+		final := strings.TrimSuffix(rel, ".init")
+		rc.genFiles[rc.flushNo] = append(rc.genFiles[rc.flushNo], final)
+		rc.genOf[final] = rc.flushNo
 	}
 	if isData && op == "rename" {
 		rel2 := strings.TrimPrefix(strings.TrimPrefix(p2, rc.root), "/")
@@ -423,7 +494,7 @@ func runHistory(c *hx.Ctx, r *hx.Rng, idx int, workers int) error {
 	defer os.RemoveAll(imgRoot)
 	nParts := []int{1, 2, 2, 4}[r.Intn(4)]
 	rc := &recorder{root: root, imgRoot: imgRoot, inflight: -1, walRecs: map[string][]int{}, genOf: map[string]int{},
-		genLo: map[int]int{}, genHi: map[int]int{}, nParts: nParts, r: r.Fork(), tornPct: 50,
+		genLo: map[int]int{}, genHi: map[int]int{}, genFiles: map[int][]string{}, nParts: nParts, r: r.Fork(), tornPct: 50,
 		paused: make(chan struct{}), resume: make(chan struct{})}
 	fileops.SetVerifObserver(rc)
 	defer fileops.SetVerifObserver(nil)
@@ -459,6 +530,7 @@ func runHistory(c *hx.Ctx, r *hx.Rng, idx int, workers int) error {
 		rc.mu.Lock()
 		rc.inflight = len(batches)
 		rc.inWrite = true
+		rc.histOps++
 		rc.phase = fmt.Sprintf("history %d op %d write #%d (%s)", idx, i, len(batches), kinds)
 		rc.mu.Unlock()
 		batches = append(batches, rows)
@@ -488,6 +560,7 @@ func runHistory(c *hx.Ctx, r *hx.Rng, idx int, workers int) error {
 		}
 		rc.mu.Lock()
 		rc.flushNo++
+		rc.histOps++
 		rc.genLo[rc.flushNo] = flushedTo
 		rc.genHi[rc.flushNo] = len(batches)
 		interleave := r.Chance(45) && len(batches) > flushedTo
@@ -557,7 +630,11 @@ func runHistory(c *hx.Ctx, r *hx.Rng, idx int, workers int) error {
 	wg.Wait()
 	inFlushWindow := 0
 	for i, img := range imgs {
-		line := c.Emit(img.opLine, answers[i])
+		ansLine := answers[i]
+		if img.class != "" {
+			ansLine += " window" // the durable state is outside the model's exactness condition
+		}
+		line := c.Emit(img.opLine, ansLine)
 		ok := answers[i] == specOf(batches, img.acked)
 		if !ok && img.inflight >= 0 && !img.torn {
 			ok = answers[i] == specOf(batches, img.inflight+1)
